@@ -154,6 +154,11 @@ def check_input(input_data, y=None, preprocessor=None,
     raise ValueError("Unknown value {} for type_of_inputs. Valid values are "
                      "'classic' or 'tuples'.".format(type_of_inputs))
 
+  if dtype == 'numeric' and input_data.dtype.kind in 'iub':
+    # differences and products of integer data (unsigned or narrow dtypes in
+    # particular) would wrap around
+    input_data = input_data.astype(np.float64)
+
   return input_data if y is None else (input_data, y)
 
 
